@@ -182,7 +182,9 @@ def check_c15(exe, tier, seed, verdict):
     samples = []
     for opt, optstr, fields in (("join", "JOIN_SAME_ENTRIES=1", ("g", "k", "vals")), ("nojoin", "", ("g", "k", "vals")),
                                 ("python", "PYTHON_STYLE=1", ("g", "k", "v"))):
-        sample = 1 if opt != "python" or tier == "thorough" else 2
+        # (thorough: TLC checks the invariant on the whole universe of one more line; every 8th - join pools - resp. 3rd - python
+        # pool - of its millions of files is replayed, which keeps the check within a few GB of memory)
+        sample = (8 if opt != "python" else 3) if tier == "thorough" else (1 if opt != "python" else 2)
         r, recs, total = export("MC_Parser", {"MaxLines": maxl + (1 if opt != "python" else 0), "Export": "TRUE", "WithBad": "FALSE", "Opt": '"%s"' % opt},
                                 ["ParseIsMeaning"], sample=sample, seed=seed)
         if r.violated:
@@ -226,6 +228,7 @@ def check_c15(exe, tier, seed, verdict):
            "evaluations": ncases + nopt + sum(len(f["lines"]) for f in files), "distinct_nontrivial": nn + nnopt,
            "rule": "(the one file of each replayed case sits, in rotation, as the /etc main file, as the vendor main file below an /etc main file that is a symbolic link to nowhere, as the /run main file, as the only drop-in of a tree without main file: the options apply wherever the layered read finds it) JOIN grammar: all files of <= %d lines over the join pool (keys a/b defined repeatedly, empty definitions, continuation lines, re-opened sections; and all files of <= %d lines over {[S], [T], a=v, a=w, a=}: a key defined again after its section was left and re-opened) read WITH JOIN_SAME_ENTRIES=1 (value list = lines of all definitions since the last empty one) and WITHOUT it (first definition); PYTHON_STYLE: all files of <= %d lines over the python pool (indented lines containing delimiters, comment characters inside values); option strings: every sequence of <= %d items from JOIN_SAME_ENTRIES=0|1, PYTHON_STYLE=0|1, PARSING_DIRS (3 lists), CONFIG_DIRS (2 lists), ROOT_PREFIX (2 roots) and 3 unknown/misspelt names (%d strings, %d replayed) each followed by a probe read whose marker keys reveal the directories, postfixes and root consulted and the two parsing flags; %d random files of both grammars as prefix traces. non-trivial = key with >= 2 definitions / indented line containing a delimiter / option string with >= 2 items or an unknown item not in first position." % (
                maxl + 1, 6 if tier == "quick" else 7, maxl, 3 if tier == "quick" else 4, totopt, nopt, len(files)),
-           "samples": samples[:3], "exhaustive": tier == "thorough",
+           "samples": samples[:3], "exhaustive": False,
+           "replay_sampling": "thorough tier: TLC model-checks every file of the universes; every 8th file of the JOIN / no-JOIN universes and every 3rd of the PYTHON_STYLE universe is replayed against the library" if tier == "thorough" else "quick tier: every file of the JOIN / no-JOIN universes, every 2nd of the PYTHON_STYLE universe is replayed",
            "trusted_base": ["TLC 1.8.0", "gcc ASan/UBSan", "drv.c"]}
     return cov, p_parser.BASE_ASSUME + ["empty option items (';;', trailing ';') are outside the universe"], "model_checking"
